@@ -200,3 +200,7 @@ TECHNIQUE = 'Lean 4 simulation-relation proof (permutation invariance) + metamor
 from harness import structstep as _ss          # noqa: E402
 from harness.mixins import add_family as _add_family   # noqa: E402
 _add_family(globals(), _ss, 'structstep', lambda case, impl: _ss.oracle(case, impl, who=('snapshot', 'viewer')))
+
+# container-valued variables: a view/update computed from the committed snapshot must not change afterwards
+from harness import valuesnap as _vs               # noqa: E402
+_add_family(globals(), _vs, 'valuesnap', _vs.oracle, share=0.15)
